@@ -151,12 +151,12 @@ example : refOf ⟨false, 1, 2, 1/2, 2, false, [0, 1]⟩
 /-- aperture balancer (min_size 1, max_size 3, band [1/2, 2]): gated callbacks, load-driven growth
     (choice 3) and shrinking, a jitter round (choice 0), a leave -/
 example : wf ⟨true, 1, 3, 1/2, 2, false, [0, 1, 2]⟩
-    [.opn, .join 3 ⟨[], []⟩, .leave 1 ⟨[], []⟩, .loaded [2, 0, 1] ⟨[], []⟩, .chan 0 2, .get ⟨[], [⟨0, 1⟩]⟩,
-     .get ⟨[3], [⟨1, 2⟩]⟩, .put 0 0 ⟨[], [⟨1, 1⟩]⟩, .jitter ⟨[0], []⟩, .leave 2 ⟨[], []⟩] = true := by decide +kernel
+    [.opn, .join 3 ⟨[], []⟩, .leave 1 ⟨[], []⟩, .loaded [2, 0, 1] ⟨[], []⟩, .chan 0 2, .get ⟨[], [⟨0, 1, 0⟩]⟩,
+     .get ⟨[3], [⟨1, 2, 0⟩]⟩, .put 0 0 ⟨[], [⟨1, 1, 0⟩]⟩, .jitter ⟨[0], []⟩, .leave 2 ⟨[], []⟩] = true := by decide +kernel
 
 example : refOf ⟨true, 1, 3, 1/2, 2, false, [0, 1, 2]⟩
-    [.opn, .join 3 ⟨[], []⟩, .leave 1 ⟨[], []⟩, .loaded [2, 0, 1] ⟨[], []⟩, .chan 0 2, .get ⟨[], [⟨0, 1⟩]⟩,
-     .get ⟨[3], [⟨1, 2⟩]⟩, .put 0 0 ⟨[], [⟨1, 1⟩]⟩, .jitter ⟨[0], []⟩, .leave 2 ⟨[], []⟩] = [0, 3] := by decide +kernel
+    [.opn, .join 3 ⟨[], []⟩, .leave 1 ⟨[], []⟩, .loaded [2, 0, 1] ⟨[], []⟩, .chan 0 2, .get ⟨[], [⟨0, 1, 0⟩]⟩,
+     .get ⟨[3], [⟨1, 2, 0⟩]⟩, .put 0 0 ⟨[], [⟨1, 1, 0⟩]⟩, .jitter ⟨[0], []⟩, .leave 2 ⟨[], []⟩] = [0, 3] := by decide +kernel
 
 /-- a list that `wf` rejects: the initial list is loaded a second time (Close() and a second Open()
     of the same balancer are outside the property) -/
